@@ -1205,6 +1205,13 @@ class Sym:
             out[name] = v
         return out
 
+    def check_exists(self, fresh, cond, label, detail=None):
+        """Obligation  pc => EXISTS fresh. cond  (fresh: SNums made by fresh_real/fresh_int); decided by z3 with a quantifier."""
+        if _is_py_bool(cond):
+            return self.check(cond, label, detail)
+        zs = [to_z3(v) for v in fresh]
+        return self.check(SBool(z3.Exists(zs, _zb(cond))), label, detail)
+
     def fail(self, label, detail=None):
         """Unconditional failure on this path (e.g. unexpected exception)."""
         self.obligations.append((label, "refuted", detail))
